@@ -111,6 +111,15 @@ def gen_c11_spec(rng: random.Random) -> Dict[str, Any]:
             for b in s_["beh"]:
                 if rng.random() < 0.7:
                     b["dur"] = []
+    elif rng.random() < 0.12:
+        # the retry middleware is added while the worker is running, after it has already handled a failing task
+        spec["retry"]["late"] = True
+        spec["cfg"].update({"A": 1, "P": 0})  # (one message at a time: "prime" is handled before the others start)
+        for s_ in sends:
+            s_["at"] = 1.0 + s_["at"]
+        sends.insert(0, {"tok": "prime", "task": "t_async", "beh": [{"dur": [], "out": "raise:ValueError", "value": 0}], "labels": {},
+                         "at": 0, "primer": True})
+        meta["prime"] = {"mr_kind": "absent", "mr": 0, "ro_kind": "absent"}
     elif empty_id:
         # a task id that happens to be falsy (the caller chose it): an id like any other
         sends[0]["tok"] = ""
@@ -121,6 +130,8 @@ def gen_c11_spec(rng: random.Random) -> Dict[str, Any]:
 def model(spec: Dict[str, Any], send: Dict[str, Any]) -> Dict[str, Any]:
     """Reference model: expected executions and stored results for one token."""
     r = spec["retry"]
+    if send.get("primer"):
+        return {"execs": 1, "stored": ["err"]}  # handled before the retry middleware was there
     labels = send["labels"]
     ro = labels.get("retry_on_error")
     if isinstance(ro, str):
